@@ -1,7 +1,7 @@
 """C02 - only explicitly exposed, non-private members are remotely reachable.
 
 MC    : Expose.tla (Served / Advertised as functions of the member shape and the request; OnlyExposed, AdvertisedIsServed).
-Gen   : Gen_Expose.tla enumerates every constructible member shape (540); the harness crosses them with the request kinds
+Gen   : Gen_Expose.tla enumerates every constructible member shape (570); the harness crosses them with the request kinds
         (call, oneway, batch, oneway batch, attribute read, attribute write) and the seven name variants.
 Drive : for each shape a real class hierarchy is built and an instance registered in a real daemon; the request is written as a
         raw INVOKE message (no client-side filtering); every function of the generated classes appends to a side-effect log.
@@ -120,6 +120,19 @@ def build_target(m, i, log):
         body[name] = prop
     elif kind == "classattr":
         body[name] = 42
+    elif kind == "lazyattr":
+        import functools
+        if i % 2:
+            body[name] = functools.cached_property(func("lazy", fname))
+        else:
+            class GetOnly(object):
+                """a descriptor with a getter only (what a home-made lazy attribute looks like)"""
+                def __get__(self, inst, owner=None):
+                    if inst is None:
+                        return self
+                    log.append("lazy")
+                    return "computed"
+            body[name] = GetOnly()
     elif kind == "nested_exposed_class":
         body[name] = NestedExposed
     else:
@@ -433,7 +446,7 @@ def concurrent_metadata(shapes, seed):
 
 def run(ctx):
     memnet.install()
-    ctx.rule = ("cases = constructible member shapes from Gen_Expose (540) x request kinds (6) x name variants (7), one raw INVOKE each "
+    ctx.rule = ("cases = constructible member shapes from Gen_Expose (570) x request kinds (6) x name variants (7), one raw INVOKE each "
                 "(quick: all 'exact' requests, one third of the others by rotation); distinct_nontrivial = distinct (shape, request kind, "
                 "name variant)")
     ctx.assumptions = ["one member under test per generated class, next to an always-exposed bystander method",
@@ -441,8 +454,8 @@ def run(ctx):
                        "name-mangled members are written with their mangled name (_Target__member)"]
     tlc.mc(ctx, "Expose", cfg="MC_Expose.cfg")
     shapes = tlc.gen(ctx, "Gen_Expose", cfg="Gen_Expose.cfg")
-    if len(shapes) != 540:
-        raise util.MachineryError("expected 540 shapes, got %d" % len(shapes))
+    if len(shapes) != 570:
+        raise util.MachineryError("expected 570 shapes, got %d" % len(shapes))
     shapes.sort(key=lambda s: json.dumps(s["m"], sort_keys=True))
     cases = []
     n = 0
